@@ -28,6 +28,15 @@ Wave 9: R6 = C02 R4 (shared): the Allow header the approve branch copies into Ac
 method list, SET by the automatic OPTIONS responder (an ``append_header('Allow', ..)`` merges a provisional Allow written earlier in the
 cycle and the preflight approves methods the resource answers with 405; seeded s9-c20-1).
 
+Second preserving wave (k2-*): the policy interpreter reads a call on a module-level logger (bound once to ``logging.getLogger(..)``, constant /
+plain-local arguments) as a no-op statement, ``bool(x)`` as x's truth, membership in a literal collection of at most three constants as the
+disjunction of the equalities, ``:=``, ``del local``, ``assert`` (raises when false), ``typing.cast``, locals bound to ``resp.set_header`` & co.,
+loops over a literal sequence of literal pairs, keyword arguments of the header accessors, staticmethod helpers.  R4's wiring clauses were
+re-based on what they need: "the collection handed to add_middleware holds the constructed instance" is a forward MUST-analysis over
+App.__init__ (_holds_instance; a use of the instance that is not read is exit 2), and the duplicate-CORS refusal of App.add_middleware is
+read through single-assignment locals, one-expression helpers and ONE refusing helper (same-class method or module-level function) that
+add_middleware calls before it extends the list (_Expander / _duplicate_refusal).
+
 Contract names used as anchors: the parameter positions of
 ``process_response(self, req, resp, resource, req_succeeded)``, the public
 attributes ``allow_origins`` / ``allow_credentials`` / ``expose_headers``, the
@@ -104,11 +113,11 @@ class Table:
     def sites(self, kind, pred):
         """ast call node id -> (node, func, [leaves, event]) for events of kind
         whose header satisfies pred."""
-        out: Dict[int, list] = {}
+        out: Dict[tuple, list] = {}
         for l in self.leaves:
             for ev in l.events:
                 if ev[0] == kind and pred(ev[1]):
-                    out.setdefault(id(ev[3]), [ev[3], ev[4], []])[2].append((l, ev))
+                    out.setdefault((id(ev[3]), ev[1]), [ev[3], ev[4], []])[2].append((l, ev))     # one site per call AND header (unrolled loops)
         return list(out.values())
 
     def unknown_atoms(self, leaf: Leaf) -> List[str]:
@@ -237,6 +246,12 @@ def table(run) -> Table:
 # R1 gates
 # ---------------------------------------------------------------------------
 
+def _hdr_text(node: ast.Call) -> str:
+    """the header-name argument of a set_header call, for messages"""
+    a = node.args[0] if node.args else next((k.value for k in node.keywords if k.arg == 'name'), None)
+    return short(a, 50) if a is not None else short(node, 50)
+
+
 def r1_gates(run):
     t = table(run)
     sites = t.sites('set', lambda h: h in t.cors_names)
@@ -245,10 +260,10 @@ def r1_gates(run):
     for node, func, les in sites:
         t.require(run, t.origin_present, les,
                   'a CORS response header is written only when the request carries an Origin header', node, func,
-                  'a request without Origin whose response gains %s' % short(node.args[0], 50))
+                  'a request without Origin whose response gains %s' % _hdr_text(node))
         t.require(run, t.allowed, les,
                   'a CORS response header is written only for an origin that allow_origins admits', node, func,
-                  'allow_origins={"https://a"} and Origin: https://evil - the response gains %s' % short(node.args[0], 50))
+                  'allow_origins={"https://a"} and Origin: https://evil - the response gains %s' % _hdr_text(node))
     _decision_headers_not_last_wins(run, t)
 
 
@@ -522,9 +537,9 @@ def _approve(run):
             continue    # reported; the conjunction below would only repeat it (or stumble over the atom that replaced the flag)
         t.require(run, need, les, 'preflight approval headers are written only for a successful OPTIONS carrying '
                   'Access-Control-Request-Method whose response advertises an Allow set', node, func,
-                  'a failed (req_succeeded false) or non-OPTIONS exchange whose response gains %s' % short(node.args[0], 50))
-        if node.args and t.ex._fold_str(node.args[0], func) and t.ex._fold_str(node.args[0], func).lower() == APPROVE[0]:
-            bad = next(((l, ev) for (l, ev) in les if ev[2] != ('prehdr', 'allow')), None)
+                  'a failed (req_succeeded false) or non-OPTIONS exchange whose response gains %s' % _hdr_text(node))
+        if any(ev[1] == APPROVE[0] for (_l, ev) in les):
+            bad = next(((l, ev) for (l, ev) in les if ev[1] == APPROVE[0] and ev[2] != ('prehdr', 'allow')), None)
             run.check(bad is None, 'Access-Control-Allow-Methods is the Allow value the responder advertised', func, node,
                       witness=(bad[0].describe() + ['value: %s' % vkey(bad[1][2])]) if bad else None)
 
@@ -550,7 +565,7 @@ def _gated_by_success_flag(run, t: Table, node, func, les) -> bool:
               '(no other value stands in for "no exception left the request cycle")', func, node,
               witness=(bad.describe() + ['%s: %s on this path' % (t.succ_atom, 'false' if ev3(lit(t.succ_atom), bad) is False else 'never consulted')]) if bad else None,
               runtime_witness='an OPTIONS responder that sets Allow and then raises, with an error handler that leaves the status at 200: '
-                              'the failed exchange gains %s' % short(node.args[0], 50))
+                              'the failed exchange gains %s' % _hdr_text(node))
     return bad is None
 
 
@@ -609,6 +624,9 @@ def _holds_instance(cfg, cn, an, arg, cmvar, ctor_call):
             if (c.func.attr == 'append' and len(c.args) == 1 and is_cm(c.args[0])) or (c.func.attr == 'insert' and len(c.args) == 2 and is_cm(c.args[1])) \
                     or (c.func.attr == 'extend' and len(c.args) == 1 and holds(c.args[0], st)):
                 gen.add(x)
+        if not gen and not keep and n.id not in (cn.id, an.id) and any(is_cm(x) for x in n.walk()):
+            # the instance is mentioned in a form that is not read (handed to a function, wrapped by a call, ...)
+            raise UnknownIdiom('App.__init__: what %s does with the CORSMiddleware instance is not understood' % short(n.ast if n.ast is not None else n.stmt, 80))
         kill = set()
         for x in n.walk():
             if isinstance(x, ast.Name) and not isinstance(x.ctx, ast.Load):
@@ -943,6 +961,38 @@ def _duplicate_refusal(run):
         run.check(ok, 'the registered-middleware list is extended only after the duplicate-CORS test passed', g, w.ast)
 
 
+def _allow_setting_nodes(p, fn: Func, cfg, resp: str, depth=0) -> List[int]:
+    """CFG nodes of fn that certainly set the Allow header of the response object named `resp`: a direct ``resp.set_header('Allow', ..)`` /
+    ``append_header``, or a call of a resolved plain function that is handed `resp` and sets Allow on EVERY normal path through its own body
+    (``_set_options_response(resp, allowed)``; looked through three levels)."""
+    out = []
+    for n in cfg.live_nodes():
+        hit = False
+        for c in n.calls():
+            if dotted(c.func) in (resp + '.set_header', resp + '.append_header'):
+                a = c.args[0] if c.args else next((k.value for k in c.keywords if k.arg == 'name'), None)
+                v = p.fold(fn.module, a, fn.cls, fn) if a is not None else None
+                if isinstance(v, str) and v.lower() == 'allow':
+                    hit = True
+            elif depth < 3 and any(isinstance(a, ast.Name) and a.id == resp for a in list(c.args) + [k.value for k in c.keywords]):
+                h = p.callee(fn, c)
+                if isinstance(h, Func) and not h.is_async and h.node is not fn.node:
+                    bound_self = isinstance(c.func, ast.Attribute) and h.cls is not None
+                    m = _bind_call(h, c, bound_self)
+                    if m is None:
+                        continue
+                    qs = [k for k, v in m.items() if isinstance(v, ast.Name) and v.id == resp]
+                    if len(qs) != 1 or any(isinstance(x, ast.Name) and x.id == qs[0] and not isinstance(x.ctx, ast.Load) for x in ast.walk(h.node)):
+                        continue
+                    hcfg = cfg_of(h, p)
+                    inner = _allow_setting_nodes(p, h, hcfg, qs[0], depth + 1)
+                    if inner and flow.find_path(hcfg, [hcfg.entry], [hcfg.exit], avoid_nodes=inner, edge_filter=flow.no_exc) is None:
+                        hit = True
+        if hit:
+            out.append(n.id)
+    return out
+
+
 def _allow_sources(run):
     p = run.project
     # static route: OPTIONS branch sets Allow and returns before any file is opened
@@ -954,28 +1004,38 @@ def _allow_sources(run):
         raise AnchorError('StaticRoute.__call__ signature')
     req, resp = params[1], params[2]
 
-    def is_options(e):
-        if isinstance(e, ast.Compare) and len(e.ops) == 1 and isinstance(e.ops[0], ast.Eq):
-            a, b = e.left, e.comparators[0]
-            for x, y in ((a, b), (b, a)):
-                if dotted(x) == req + '.method' and isinstance(y, ast.Constant) and y.value == 'OPTIONS':
-                    return True
+    def is_method(x):
+        if dotted(x) == req + '.method':
+            return True
+        if isinstance(x, ast.Name) and x.id not in params:
+            defs = [n for n in walk_self(f.node) if isinstance(n, ast.Name) and n.id == x.id and not isinstance(n.ctx, ast.Load)]
+            binds = [n for n in walk_self(f.node) if isinstance(n, ast.Assign) and len(n.targets) == 1 and isinstance(n.targets[0], ast.Name)
+                     and n.targets[0].id == x.id and dotted(n.value) == req + '.method']
+            return len(defs) == 1 and len(binds) == 1     # a local bound once, to req.method
         return False
 
+    def options_truth(e):
+        """True: e says "the method is OPTIONS" (``m == 'OPTIONS'``, ``m in ('OPTIONS',)``); False: e says it is not (``!=``, ``not in``);
+        None: e is something else.  The constant may be spelled through a module-level name."""
+        if isinstance(e, ast.Compare) and len(e.ops) == 1:
+            a, b, op = e.left, e.comparators[0], e.ops[0]
+            if isinstance(op, (ast.Eq, ast.NotEq)):
+                for x, y in ((a, b), (b, a)):
+                    if is_method(x) and p.fold(f.module, y, f.cls, f) == 'OPTIONS':
+                        return isinstance(op, ast.Eq)
+            if isinstance(op, (ast.In, ast.NotIn)) and is_method(a):
+                v = p.fold(f.module, b, f.cls, f)
+                if isinstance(v, (tuple, list, set, frozenset)) and len(v) == 1 and list(v)[0] == 'OPTIONS':
+                    return isinstance(op, ast.In)
+        return None
+
     edges = [(n.id, y, l) for n in cfg.live_nodes() if n.kind == 'test' for (y, l) in cfg.succ[n.id]
-             if l in ('T', 'F') and implied(n.ast, l == 'T', is_options) is True]
+             if l in ('T', 'F') and (implied(n.ast, l == 'T', lambda e: options_truth(e) is True) is True
+                                     or implied(n.ast, l == 'T', lambda e: options_truth(e) is False) is False)]
     if not edges:
         raise AnchorError('StaticRoute.__call__: no branch on req.method == "OPTIONS"')
 
-    def sets_allow(n):
-        for c in n.calls():
-            if dotted(c.func) in (resp + '.set_header', resp + '.append_header') and c.args:
-                v = p.fold(f.module, c.args[0], f.cls, f)
-                if isinstance(v, str) and v.lower() == 'allow':
-                    return True
-        return False
-
-    allow_nodes = [n.id for n in cfg.live_nodes() if sets_allow(n)]
+    allow_nodes = _allow_setting_nodes(p, f, cfg, resp)
     for e in edges:
         path = flow.find_path(cfg, [e[1]], [cfg.exit], avoid_nodes=allow_nodes, edge_filter=flow.no_exc)
         run.check(path is None, 'a static route answers OPTIONS with an Allow header (so that a CORS preflight can be approved)', f,
@@ -992,13 +1052,7 @@ def _allow_sources(run):
             raise UnknownIdiom('%s signature' % g.qual)
         gcfg = cfg_of(g, p)
         run.use_cfg(gcfg)
-        nodes = []
-        for n in gcfg.live_nodes():
-            for c in n.calls():
-                if dotted(c.func) in (gp[1] + '.set_header', gp[1] + '.append_header') and c.args:
-                    v = p.fold(g.module, c.args[0], None, g)
-                    if isinstance(v, str) and v.lower() == 'allow':
-                        nodes.append(n.id)
+        nodes = _allow_setting_nodes(p, g, gcfg, gp[1])
         path = flow.find_path(gcfg, [gcfg.entry], [gcfg.exit], avoid_nodes=nodes, edge_filter=flow.no_exc)
         run.check(path is None, 'the automatic OPTIONS responder sets the Allow header on every path', g, g.node.name,
                   where=g.loc(), witness=flow.describe_path(gcfg, path) if path else None)
@@ -1023,7 +1077,7 @@ def check(run):
     # nothing was raised (shared with C03 R2)
     from . import c03 as _c03
 
-    run.rule('R5', _c03.r2_discipline, 'the success flag handed to process_response is true only when no exception left the request cycle (shared with C03 R2)', floor=20)
+    run.rule('R5', _c03.r2_discipline, 'the success flag handed to process_response is true only when no exception left the request cycle (shared with C03 R2)', floor=16)
     # Allow sources: on the approve branch Access-Control-Allow-Methods is a COPY of the response's Allow header, so the preflight
     # approves exactly what the Allow computation says.  That value must be the resource's own method list: the automatic OPTIONS
     # responder (sync and async alike) SETS Allow to the snapshot of the implemented methods - an append would merge in a
